@@ -45,6 +45,8 @@
 (*   main    Nat     id of the main transaction (Conflicts(main) is in     *)
 (*                   every fallback; several requests may share one main)  *)
 (*   nvb,vub Nat     NotValidBefore / ValidUntilBlock of the fallback      *)
+(*   mainsender      "Notary" when the main transaction is sent by the     *)
+(*                   Notary contract (informational part only)             *)
 (***************************************************************************)
 EXTENDS Integers, Sequences, FiniteSets, SequencesExt, FiniteSetsExt
 
